@@ -290,11 +290,27 @@ class Run:
                     p[i] = "zz"
                 p.append("junk")
             elif isinstance(p, Struct):
-                for k in list(p.attributes):
-                    p.attributes[k] = "mutated"
-                p.attributes["extra"] = 1
-                p.name = "Mutated"
+                self._spoil(p)
         ps.clear()
+
+    def _spoil(self, st, depth=0):
+        """everything reachable from a delivered struct literal: nested structs, the elements of its arrays"""
+        for k in list(st.attributes):
+            v = st.attributes[k]
+            if depth < 4:
+                if isinstance(v, Struct):
+                    self._spoil(v, depth + 1)
+                elif isinstance(v, Array):
+                    for el in v.values:
+                        if isinstance(el, Struct):
+                            self._spoil(el, depth + 1)
+                    try:
+                        v.values.append("junk")
+                    except Exception:  # noqa: BLE001
+                        pass
+            st.attributes[k] = "mutated"
+        st.attributes["extra"] = 1
+        st.name = "Mutated"
 
     # API calls ------------------------------------------------------------------------------
     def _call(self, op, fn):
